@@ -1,4 +1,5 @@
-"""D17: a SimPy process whose generator ends without ever yielding crashes env.run().
+"""D17 (FIXED in /repo by commit 2349ac2; before the fix this printed "env.run() raised RuntimeError"):
+a SimPy process whose generator ends without ever yielding crashed env.run().
 
 usim/py/events.py, Process._run_payload: the first `generator.send(None)` is outside the
 try/except StopIteration that turns the end of the generator into `self.succeed(value)`.
